@@ -586,6 +586,21 @@ func c16Timestamp(c *Ctx, p *Prog, m *Model) {
 			{
 				seenE := map[ssa.Value]bool{}
 				var walkE func(v ssa.Value, d int)
+				// go/ssa does not merge the two loads of `layout[i] != ""` and `lay = layout[i]`: the same element is two
+				// loads through index addresses with the same base and index (the function does not write the list)
+				sameElem := func(a, b ssa.Value) bool {
+					if a == b {
+						return true
+					}
+					ua, okA := a.(*ssa.UnOp)
+					ub, okB := b.(*ssa.UnOp)
+					if !okA || !okB || ua.Op != token.MUL || ub.Op != token.MUL {
+						return false
+					}
+					ia, okA := ua.X.(*ssa.IndexAddr)
+					ib, okB := ub.X.(*ssa.IndexAddr)
+					return okA && okB && ia.X == ib.X && ia.Index == ib.Index
+				}
 				nonEmptyGuarded := func(e ssa.Value, from *ssa.BasicBlock) bool {
 					for _, g := range guardsOf(from) {
 						cond, neg := normCond(g.If.Cond)
@@ -594,14 +609,14 @@ func c16Timestamp(c *Ctx, p *Prog, m *Model) {
 							continue
 						}
 						takenTrue := (g.Succ == 0) != neg
-						if strip(bo.X) == e {
+						if sameElem(strip(bo.X), e) {
 							if cs, isC := constString(bo.Y); isC && cs == "" {
 								if (bo.Op == token.NEQ && takenTrue) || (bo.Op == token.EQL && !takenTrue) {
 									return true
 								}
 							}
 						}
-						if lc, isL := bo.X.(*ssa.Call); isL && isBuiltinCall(lc, "len") && len(lc.Call.Args) == 1 && strip(lc.Call.Args[0]) == e {
+						if lc, isL := bo.X.(*ssa.Call); isL && isBuiltinCall(lc, "len") && len(lc.Call.Args) == 1 && sameElem(strip(lc.Call.Args[0]), e) {
 							if k, isK := bo.Y.(*ssa.Const); isK && k.Value != nil && k.Value.Kind() == constant.Int {
 								if z, _ := constant.Int64Val(k.Value); z == 0 {
 									if ((bo.Op == token.NEQ || bo.Op == token.GTR) && takenTrue) || ((bo.Op == token.EQL || bo.Op == token.LEQ) && !takenTrue) {
